@@ -13,18 +13,30 @@ import (
 type RefType struct {
 	Scope Scope
 	Name  string
+	// busy is set while the reference is being resolved: it is
+	// found set again when a structure contains itself.
+	busy bool
 }
+
+// recursiveMark starts the name of the invalid struct type which
+// stands for a reference to a structure being resolved.
+const recursiveMark = "recursive type: "
 
 // NewRefType is a contructor for the representation of a type reference to be
 // resolved with a TypeSet.
 func NewRefType(name string, scope Scope) signature.Type {
-	return &RefType{scope, name}
+	return &RefType{Scope: scope, Name: name}
 }
 
 // Signature returns the signature of the referenced type. If the
 // reference can not be resolved, it returns an invalid struct type
 // with a name describing the error.
 func (r *RefType) Signature() string {
+	if r.busy {
+		return signature.NewStructType(recursiveMark+r.Name, nil).Signature()
+	}
+	r.busy = true
+	defer func() { r.busy = false }()
 	t, err := r.Scope.Search(r.Name)
 	if err == nil {
 		return t.Signature()
@@ -114,7 +126,9 @@ func (r *RefType) Reader() signature.TypeReader {
 
 func (r *RefType) Type() reflect.Type {
 	t, err := r.Scope.Search(r.Name)
-	if err == nil {
+	if err == nil && !r.busy {
+		r.busy = true
+		defer func() { r.busy = false }()
 		return t.Type()
 	}
 	return reflect.TypeOf((*error)(nil))
